@@ -16,7 +16,14 @@ CONFIGS = {
     "F0": "",
     "F1": "alloc serde zeroize const-default internals",
     "F2": "alloc serde zeroize const-default internals faster-hex",
+    # F1 without debug assertions (overflow checks kept): the MIR a release build starts from, minus wrapping arithmetic. Whatever a rule proves
+    # with the help of a `debug_assert!` (or any `cfg(debug_assertions)` code) does not hold here
+    "F1N": "alloc serde zeroize const-default internals",
+    "F0N": "",
+    "F2N": "alloc serde zeroize const-default internals faster-hex",
 }
+_NOASSERT = "-C debug-assertions=off -C overflow-checks=on"
+PROFILE_FLAGS = {"F1N": _NOASSERT, "F0N": _NOASSERT, "F2N": _NOASSERT}
 
 
 def nightly_sysroot():
@@ -69,7 +76,7 @@ class Build:
     def run(self):
         ensure_driver()
         env = base_env()
-        env["RUSTFLAGS"] = ("-Zmir-opt-level=0 -Awarnings " + self.extra).strip()
+        env["RUSTFLAGS"] = ("-Zmir-opt-level=0 -Awarnings " + self.extra + " " + PROFILE_FLAGS.get(self.cfg, "") + " " + os.environ.get("GAV_EXTRA_RUSTFLAGS", "")).strip()
         env["RUSTC_WORKSPACE_WRAPPER"] = DRIVER
         env["GAV_OUT"] = self.facts_path
         env["GAV_NONCE"] = self.nonce
@@ -111,6 +118,7 @@ class Build:
                "--out-dir", outdir, src_path]
         for f in self.features.split():
             cmd += ["--cfg", 'feature="%s"' % f]
+        cmd += PROFILE_FLAGS.get(self.cfg, "").split()
         if extra_args:
             cmd += extra_args
         if out_facts:
